@@ -781,7 +781,71 @@ func runC11(c EditCase, o *vk.Obs) string {
 	if msg == "" {
 		in.obs(o, c11Names)
 	}
+	if msg == "" && c.Elem == elem.Any && c.BigN == 0 && c.Buf == nil && len(c.Lhs) > 0 && len(c.Lhs)+len(c.Rhs) <= 64 {
+		if msg = checkEditUnhashable(c); msg == "" {
+			o.Class("interface_elements_with_one_unhashable_value")
+		}
+	}
 	return msg
+}
+
+// checkEditUnhashable: EditScript on []any whose elements are plain ints,
+// except ONE element of lhs, which holds a slice (a dynamic type that can be
+// neither hashed nor compared with ==).  Since no other element has that
+// dynamic type, == never compares two slices, so the call is legitimate: the
+// odd element simply equals nothing.  The script must exist (no panic), turn
+// lhs into rhs, and keep as many elements as a longest common subsequence of
+// the ints with the odd element replaced by a value that occurs nowhere else.
+func checkEditUnhashable(c EditCase) string {
+	p := (len(c.Lhs)*7 + len(c.Rhs)) % len(c.Lhs)
+	lhs, rhs := make([]any, len(c.Lhs)), make([]any, len(c.Rhs))
+	li := slices.Clone(c.Lhs)
+	for i, v := range c.Lhs {
+		lhs[i] = v
+	}
+	for i, v := range c.Rhs {
+		rhs[i] = v
+	}
+	lhs[p], li[p] = []int{c.Lhs[p]}, math.MinInt+12345 // equals nothing
+	errf := func(format string, args ...any) string {
+		return fmt.Sprintf("EditScript[any](lhs=%v with element #%d replaced by the slice value %v, rhs=%v; all other elements are ints): ", c.Lhs, p, lhs[p], c.Rhs) + fmt.Sprintf(format, args...)
+	}
+	var script []slice.Edit[any]
+	if pv := vk.PanicValue(func() { script = slice.EditScript(lhs, rhs) }); pv != nil {
+		return errf("panicked: %v", pv)
+	}
+	lpos, kept := 0, 0
+	var out []any
+	for _, e := range script {
+		switch e.Op {
+		case slice.OpDrop:
+			lpos += len(e.X)
+		case slice.OpEmit:
+			out = append(out, e.X...)
+			kept += len(e.X)
+			lpos += len(e.X)
+		case slice.OpCopy:
+			out = append(out, e.Y...)
+		case slice.OpReplace:
+			out = append(out, e.Y...)
+			lpos += len(e.X)
+		}
+	}
+	same := len(out) == len(rhs)
+	for i := 0; same && i < len(out); i++ {
+		v, ok := out[i].(int)
+		same = ok && v == c.Rhs[i]
+	}
+	if len(script) > 0 && (!same || lpos != len(lhs)) {
+		return errf("the script consumes %d of %d lhs elements and produces %v, want rhs", lpos, len(lhs), out)
+	}
+	if len(script) == 0 {
+		return errf("the script is empty although lhs holds an element that rhs cannot hold")
+	}
+	if want := lcsLen(li, c.Rhs); kept != want {
+		return errf("the script keeps %d elements, a longest common subsequence has %d", kept, want)
+	}
+	return ""
 }
 
 // ---------------------------------------------------------------------------
